@@ -537,7 +537,11 @@ class Lowerer:
                 self.repo_callees.add(rule[1])
             t = self.newtmp()
             ct = rule[2] if len(rule) > 2 else self.ntype(self.skip(node))
-            self.pre.append('%s %s; %s(&%s%s);' % (ct, t, rule[1], t, ''.join(', ' + a for a in args)))
+            if kind == 'calleeret' and node.get('kind') == 'CXXMemberCallExpr' and args:
+                # a lowered METHOD returning a class by value has the signature f(self, _ret, args...) (see lower())
+                self.pre.append('%s %s; %s(%s, &%s%s);' % (ct, t, rule[1], args[0], t, ''.join(', ' + a for a in args[1:])))
+            else:
+                self.pre.append('%s %s; %s(&%s%s);' % (ct, t, rule[1], t, ''.join(', ' + a for a in args)))
             return t
         if kind == 'expr':
             return '(' + rule[1].format(*args, **{'v%d' % i: strip_amp(a) for i, a in enumerate(args)}) + ')'
